@@ -165,6 +165,10 @@ InC03(r) == \/ \E d \in Durations, a \in AuthShapes, p \in UserPaths, loc \in Du
                          "self", "plain")
             \/ \E d \in {Dur("absent", FALSE, TRUE, 0), Dur("100h", TRUE, TRUE, 360000)} :
                  r = Req("refresh", Svc, Key("p256", "ecdsa", 256, 0, TRUE), d, [cred |-> "ipcert_long", age |-> 0], "self", "plain")
+            \* the cloud caller's own clock (the X-Amz-Date of the request it pre-signed) is ahead of / behind the daemon's, as
+            \* far as STS tolerates: validity counts from the daemon's "now"
+            \/ \E d \in {Dur("absent", FALSE, TRUE, 0)}, c \in {"aws_ahead", "aws_behind"} :
+                 r = Req("awsrole", Svc, Key("p256", "ecdsa", 256, 0, TRUE), d, [cred |-> c, age |-> 0], "self", "plain")
 InC10(r) == \E k \in AllKeys, p \in Paths :
               r = Req(p, IF p \in UserPaths THEN Alice ELSE Svc, k, D1h,
                       [cred |-> (IF p = "refresh" THEN "ipcert" ELSE IF p = "awsrole" THEN "aws" ELSE "cookie"), age |-> 0],
